@@ -75,20 +75,19 @@ type lockTable struct {
 }
 
 // packages and the structs whose fields are locations
-var targets = []struct {
+// (structs == nil: every struct type declared in the package)
+type target struct {
 	dir     string
 	short   string
 	structs []string
-}{
-	{"pkg/resource", "resource", []string{"Value", "Collection", "config"}},
-	{"internal/minibus", "minibus", []string{"Bus", "listener"}},
-	{"pkg/router", "router", []string{"router"}},
-	{"pkg/wrap", "wrap", []string{"ClientServerStream"}},
+}
+
+var targets = []target{
+	{"pkg/resource", "resource", nil},
+	{"internal/minibus", "minibus", nil},
+	{"pkg/router", "router", nil},
+	{"pkg/wrap", "wrap", nil},
 	{"pkg/group", "group", nil},
-	{"pkg/trait/electricpb", "electricpb", []string{"Model"}},
-	{"pkg/trait/wastepb", "wastepb", []string{"Model"}},
-	{"pkg/trait/parentpb", "parentpb", []string{"Model"}},
-	{"pkg/trait/metadatapb", "metadatapb", []string{"Model"}},
 }
 
 type fakeImporter struct{ pkgs map[string]*types.Package }
@@ -110,6 +109,8 @@ type fieldInfo struct {
 	mutex     bool
 	pointee   bool // io.Reader, *rand.Rand
 	closeOnly bool // chan struct{}
+	container bool // slice or map: the elements are the location key+"[]"
+	cond      bool // *sync.Cond
 }
 
 type pkgAn struct {
@@ -124,6 +125,9 @@ type pkgAn struct {
 	out    *lockTable
 	seen   map[string]bool
 	seenC  map[string]bool
+	// condLock: *sync.Cond field -> the mutex field given to sync.NewCond when it is assigned
+	condLock map[string]string
+	fresh    map[*ast.FuncDecl]map[types.Object]token.Pos
 }
 
 func typeString(e ast.Expr) string {
@@ -150,9 +154,34 @@ func typeString(e ast.Expr) string {
 	return "?"
 }
 
+// allTargets: the fixed packages plus every package directory under pkg/trait (all their structs).
+func allTargets(repo string) []target {
+	ts := append([]target{}, targets...)
+	have := map[string]bool{}
+	for _, t := range ts {
+		have[t.dir] = true
+	}
+	ents, _ := os.ReadDir(filepath.Join(repo, "pkg/trait"))
+	for _, e := range ents {
+		if !e.IsDir() {
+			continue
+		}
+		dir := "pkg/trait/" + e.Name()
+		if have[dir] {
+			continue
+		}
+		if m, _ := filepath.Glob(filepath.Join(repo, dir, "*.go")); len(m) == 0 {
+			continue
+		}
+		ts = append(ts, target{dir, e.Name(), nil})
+	}
+	sort.SliceStable(ts[len(targets):], func(i, j int) bool { return ts[len(targets)+i].dir < ts[len(targets)+j].dir })
+	return ts
+}
+
 func analyse(repo string) (*lockTable, error) {
 	out := &lockTable{}
-	for _, tg := range targets {
+	for _, tg := range allTargets(repo) {
 		if err := analysePkg(repo, tg.dir, tg.short, tg.structs, out); err != nil {
 			return nil, err
 		}
@@ -203,7 +232,7 @@ func analysePkg(repo, dir, short string, structs []string, out *lockTable) error
 		return fmt.Errorf("cannot type-check %s", dir)
 	}
 	pa := &pkgAn{short: short, dir: dir, fset: fset, files: files, info: info, fields: map[*types.Var]*fieldInfo{},
-		funcs: map[*types.Func]*ast.FuncDecl{}, repo: repo, out: out, seen: map[string]bool{}, seenC: map[string]bool{}}
+		funcs: map[*types.Func]*ast.FuncDecl{}, repo: repo, out: out, seen: map[string]bool{}, seenC: map[string]bool{}, condLock: map[string]string{}}
 	want := map[string]bool{}
 	for _, s := range structs {
 		want[s] = true
@@ -217,11 +246,20 @@ func analysePkg(repo, dir, short string, structs []string, out *lockTable) error
 			}
 			for _, sp := range gd.Specs {
 				ts, ok := sp.(*ast.TypeSpec)
-				if !ok || !want[ts.Name.Name] {
+				if !ok || (structs != nil && !want[ts.Name.Name]) {
 					continue
 				}
 				st, ok := ts.Type.(*ast.StructType)
 				if !ok {
+					continue
+				}
+				isMsg := false
+				for _, fl := range st.Fields.List {
+					if typeString(fl.Type) == "protoimpl.MessageState" {
+						isMsg = true // a generated protobuf message: its contents are C07's subject, not a table location
+					}
+				}
+				if isMsg {
 					continue
 				}
 				for _, fl := range st.Fields.List {
@@ -241,6 +279,22 @@ func analysePkg(repo, dir, short string, structs []string, out *lockTable) error
 							fi.pointee = true
 						case tstr == "chan struct{}":
 							fi.closeOnly = true
+						case tstr == "*sync.Cond":
+							fi.cond = true
+						}
+						if _, ok := v.Type().Underlying().(*types.Struct); ok {
+							// a struct held by value: selecting it computes an address, the locations are its own fields
+							fi.skip = true
+						}
+						switch v.Type().Underlying().(type) {
+						case *types.Slice, *types.Map:
+							fi.container = true
+						}
+						switch ft := fl.Type.(type) {
+						case *ast.ArrayType:
+							fi.container = fi.container || ft.Len == nil
+						case *ast.MapType:
+							fi.container = true
 						}
 						pa.fields[v] = fi
 					}
@@ -259,7 +313,11 @@ func analysePkg(repo, dir, short string, structs []string, out *lockTable) error
 							v := stt.Field(i)
 							if v.Embedded() {
 								if _, ok := pa.fields[v]; !ok {
-									pa.fields[v] = &fieldInfo{key: short + "." + ts.Name.Name + "." + v.Name()}
+									fi := &fieldInfo{key: short + "." + ts.Name.Name + "." + v.Name()}
+									if _, ok := v.Type().Underlying().(*types.Struct); ok {
+										fi.skip = true
+									}
+									pa.fields[v] = fi
 								}
 							}
 						}
@@ -283,6 +341,23 @@ func analysePkg(repo, dir, short string, structs []string, out *lockTable) error
 			if s, ok := n.(*ast.SendStmt); ok {
 				if fi := pa.fieldOf(s.Chan); fi != nil {
 					fi.closeOnly = false
+				}
+			}
+			// X.cond = sync.NewCond(&Y.mu): Wait on X.cond releases and re-acquires Y.mu
+			if as, ok := n.(*ast.AssignStmt); ok && len(as.Lhs) == 1 && len(as.Rhs) == 1 {
+				if fi := pa.fieldOf(as.Lhs[0]); fi != nil && fi.cond {
+					lk := "?"
+					if call, ok := as.Rhs[0].(*ast.CallExpr); ok && calleeName(call) == "NewCond" && len(call.Args) == 1 {
+						if u, ok := call.Args[0].(*ast.UnaryExpr); ok && u.Op == token.AND {
+							if mf := pa.fieldOf(u.X); mf != nil && mf.mutex {
+								lk = mf.key
+							}
+						}
+					}
+					if old, seen := pa.condLock[fi.key]; seen && old != lk {
+						lk = "?"
+					}
+					pa.condLock[fi.key] = lk
 				}
 			}
 			return true
@@ -310,9 +385,7 @@ func analysePkg(repo, dir, short string, structs []string, out *lockTable) error
 		w := &walker{pa: pa, decl: fd, stack: []*types.Func{fn}}
 		w.walkFunc(fd, newCtx())
 	}
-	if short == "group" {
-		pa.groupLocals()
-	}
+	pa.sharedLocals()
 	return nil
 }
 
@@ -402,11 +475,17 @@ type ctx struct {
 	init  bool
 	bind  map[types.Object]string // parameter -> pointee location it is bound to
 	okvar map[types.Object]string // ok variable of `v, ok := <-X.c` -> channel
+	// alias: local variable -> the contents location ("<field>[]") of the slice/map field whose header it copied
+	alias map[types.Object]string
+	// forked: the code runs in a goroutine started by a go statement (never part of the construction phase)
+	forked bool
+	// fresh: parameter (or receiver) bound to an object that is still under construction / private to the caller
+	fresh map[types.Object]bool
 }
 
 func newCtx() *ctx {
 	return &ctx{locks: map[string]string{}, after: map[string]bool{}, guard: map[string]map[string]bool{}, po: map[string]bool{},
-		bind: map[types.Object]string{}, okvar: map[types.Object]string{}}
+		bind: map[types.Object]string{}, okvar: map[types.Object]string{}, alias: map[types.Object]string{}, fresh: map[types.Object]bool{}}
 }
 func (c *ctx) clone() *ctx {
 	n := newCtx()
@@ -432,7 +511,14 @@ func (c *ctx) clone() *ctx {
 	for k, v := range c.okvar {
 		n.okvar[k] = v
 	}
+	for k, v := range c.alias {
+		n.alias[k] = v
+	}
+	for k, v := range c.fresh {
+		n.fresh[k] = v
+	}
 	n.init = c.init
+	n.forked = c.forked
 	return n
 }
 
@@ -442,6 +528,10 @@ func (c *ctx) detached() *ctx {
 	for k, v := range c.bind {
 		n.bind[k] = v
 	}
+	for k, v := range c.alias {
+		n.alias[k] = v
+	}
+	n.forked = c.forked
 	return n
 }
 
@@ -466,6 +556,11 @@ func meet(a, b *ctx) *ctx {
 			if b.guard[c] == nil || !b.guard[c][l] {
 				delete(n.guard[c], l)
 			}
+		}
+	}
+	for k, v := range b.alias { // an alias made on either path may be live afterwards
+		if _, ok := n.alias[k]; !ok {
+			n.alias[k] = v
 		}
 	}
 	return n
@@ -603,8 +698,10 @@ func (w *walker) stmt(s ast.Stmt, c *ctx, top bool) (*ctx, bool) {
 				if fi := w.pa.fieldOf(call.Args[0]); fi != nil {
 					w.expr(call.Args[0], c, false)
 					w.closer(fi.key, call.Pos(), c)
+					// from here on the channel IS closed: nothing below is known to precede its close
+					c = c.clone()
+					delete(c.guard, fi.key)
 					if top {
-						c = c.clone()
 						delete(c.po, fi.key)
 					}
 					return c, false
@@ -614,6 +711,23 @@ func (w *walker) stmt(s ast.Stmt, c *ctx, top bool) (*ctx, bool) {
 				w.expr(st.X, c, false)
 				return c, true
 			}
+			// X.cond.Wait(): releases the cond's mutex and re-acquires it before returning; what was
+			// checked under the lock before the wait (a channel still open) is not known afterwards
+			if se, ok := call.Fun.(*ast.SelectorExpr); ok && se.Sel.Name == "Wait" {
+				if fi := w.pa.fieldOf(se.X); fi != nil && fi.cond {
+					w.expr(se.X, c, false)
+					lk := w.pa.condLock[fi.key]
+					if lk == "" || lk == "?" || c.locks[lk] != "X" {
+						// waiting without holding the cond's mutex (or on a cond whose mutex is unknown)
+						w.site(fi.key+"!wait-without-its-mutex", "W", se.Sel.Pos(), newCtx(), false)
+					}
+					c = c.clone()
+					for ch := range c.guard {
+						delete(c.guard[ch], lk)
+					}
+					return c, false
+				}
+			}
 		}
 		w.expr(st.X, c, false)
 		return c, false
@@ -621,10 +735,10 @@ func (w *walker) stmt(s ast.Stmt, c *ctx, top bool) (*ctx, bool) {
 		if lock, _ := w.lockOp(st.Call); lock != "" {
 			return c, false // released when the function returns
 		}
-		w.callDetached(st.Call, c)
+		w.callDetached(st.Call, c, false)
 		return c, false
 	case *ast.GoStmt:
-		w.callDetached(st.Call, c)
+		w.callDetached(st.Call, c, true)
 		return c, false
 	case *ast.AssignStmt:
 		for _, r := range st.Rhs {
@@ -632,6 +746,15 @@ func (w *walker) stmt(s ast.Stmt, c *ctx, top bool) (*ctx, bool) {
 		}
 		for _, l := range st.Lhs {
 			w.expr(l, c, true)
+		}
+		if len(st.Lhs) == len(st.Rhs) {
+			for i := range st.Lhs {
+				c = w.setAlias(st.Lhs[i], st.Rhs[i], c)
+			}
+		} else {
+			for i := range st.Lhs {
+				c = w.setAlias(st.Lhs[i], nil, c)
+			}
 		}
 		// v, ok := <-X.c
 		if len(st.Lhs) == 2 && len(st.Rhs) == 1 {
@@ -658,6 +781,11 @@ func (w *walker) stmt(s ast.Stmt, c *ctx, top bool) (*ctx, bool) {
 				if vs, ok := sp.(*ast.ValueSpec); ok {
 					for _, v := range vs.Values {
 						w.expr(v, c, false)
+					}
+					if len(vs.Names) == len(vs.Values) {
+						for i := range vs.Names {
+							c = w.setAlias(vs.Names[i], vs.Values[i], c)
+						}
 					}
 				}
 			}
@@ -708,7 +836,11 @@ func (w *walker) stmt(s ast.Stmt, c *ctx, top bool) (*ctx, bool) {
 		return w.loop(st.Body, st.Post, c), false
 	case *ast.RangeStmt:
 		w.expr(st.X, c, false)
-		return w.loop(st.Body, nil, c), false
+		// the elements are read at the start of every iteration: on entry and in whatever context the body leaves
+		w.elems(st.X, c, false)
+		end := w.loop(st.Body, nil, c)
+		w.elems(st.X, end, false)
+		return end, false
 	case *ast.SwitchStmt:
 		c, _ = w.stmt(st.Init, c, false)
 		w.expr(st.Tag, c, false)
@@ -905,8 +1037,16 @@ func (w *walker) rootIdent(e ast.Expr) *ast.Ident {
 	}
 }
 
-// isInit: the access is made on an object that is still under construction
+// isInit: the access is made on an object that is still under construction, or on memory private to
+// the executing function (a struct held by value in a local/parameter, a local object built from a
+// composite literal that has not been handed to anybody yet)
 func (w *walker) isInit(e ast.Expr, c *ctx) bool {
+	if w.privateRoot(e) {
+		return true
+	}
+	if c.forked {
+		return false
+	}
 	if c.init {
 		return true
 	}
@@ -919,6 +1059,9 @@ func (w *walker) isInit(e ast.Expr, c *ctx) bool {
 	if !ok || v.IsField() {
 		return false
 	}
+	if c.fresh[o] {
+		return true
+	}
 	fd := w.decl
 	if fd == nil || !(v.Pos() >= fd.Pos() && v.Pos() <= fd.End()) {
 		return false
@@ -927,7 +1070,7 @@ func (w *walker) isInit(e ast.Expr, c *ctx) bool {
 		// a local (not a parameter) of a constructor
 		return v.Pos() >= fd.Body.Pos()
 	}
-	if strings.HasPrefix(fd.Name.Name, "With") && fd.Recv == nil {
+	if isOptionCtor(fd) {
 		// the parameter of the option's function literal
 		inLit := false
 		ast.Inspect(fd.Body, func(n ast.Node) bool {
@@ -945,6 +1088,166 @@ func (w *walker) isInit(e ast.Expr, c *ctx) bool {
 		return inLit
 	}
 	return false
+}
+
+// isOptionCtor: a function without receiver named With... or whose result type is an ...Option type:
+// the function literal it returns is applied to the object under construction (config, request, server)
+func isOptionCtor(fd *ast.FuncDecl) bool {
+	if fd.Recv != nil {
+		return false
+	}
+	if strings.HasPrefix(fd.Name.Name, "With") {
+		return true
+	}
+	if fd.Type.Results != nil && len(fd.Type.Results.List) == 1 {
+		return strings.HasSuffix(typeString(fd.Type.Results.List[0].Type), "Option")
+	}
+	return false
+}
+
+// privateRoot: e selects, without following a pointer, a field of a struct held BY VALUE in a local
+// variable or parameter of the function being walked (a private copy); or e goes through a local that
+// was defined from a composite literal / new(T) in this function and has not yet been used on its own
+// (handed to a call, sent, stored, returned, captured): nobody else can reach that object yet.
+func (w *walker) privateRoot(e ast.Expr) bool {
+	id := w.rootIdent(e)
+	if id == nil || w.decl == nil {
+		return false
+	}
+	o := w.obj(id)
+	v, ok := o.(*types.Var)
+	if !ok || v.IsField() || !within(v.Pos(), w.decl) {
+		return false
+	}
+	// by value all the way
+	byValue := true
+	for x := e; byValue; {
+		switch y := x.(type) {
+		case *ast.SelectorExpr:
+			tv, ok := w.pa.info.Types[y.X]
+			if !ok || tv.Type == nil {
+				byValue = false
+				break
+			}
+			if _, isStruct := tv.Type.Underlying().(*types.Struct); !isStruct {
+				byValue = false
+			}
+			x = y.X
+			continue
+		case *ast.ParenExpr:
+			x = y.X
+			continue
+		case *ast.Ident:
+		default:
+			byValue = false
+		}
+		break
+	}
+	if byValue {
+		if _, isSel := e.(*ast.SelectorExpr); isSel {
+			return true
+		}
+	}
+	esc, ok := w.freshLocals()[o]
+	return ok && e.Pos() < esc
+}
+
+// freshLocals: for the function being walked, the locals defined from &T{...} / T{...} / new(T), with
+// the position of their first use on their own (NoPos+max when there is none)
+func (w *walker) freshLocals() map[types.Object]token.Pos {
+	if w.pa.fresh == nil {
+		w.pa.fresh = map[*ast.FuncDecl]map[types.Object]token.Pos{}
+	}
+	if m, ok := w.pa.fresh[w.decl]; ok {
+		return m
+	}
+	m := map[types.Object]token.Pos{}
+	w.pa.fresh[w.decl] = m
+	isFreshExpr := func(r ast.Expr) bool {
+		switch x := r.(type) {
+		case *ast.UnaryExpr:
+			if x.Op == token.AND {
+				_, ok := x.X.(*ast.CompositeLit)
+				return ok
+			}
+		case *ast.CompositeLit:
+			return true
+		case *ast.CallExpr:
+			if f, ok := x.Fun.(*ast.Ident); ok && f.Name == "new" {
+				return true
+			}
+		}
+		return false
+	}
+	const never = token.Pos(1 << 40)
+	ast.Inspect(w.decl, func(n ast.Node) bool {
+		switch s := n.(type) {
+		case *ast.AssignStmt:
+			if s.Tok == token.DEFINE && len(s.Lhs) == len(s.Rhs) {
+				for i, l := range s.Lhs {
+					if id, ok := l.(*ast.Ident); ok && isFreshExpr(s.Rhs[i]) {
+						if o := w.pa.info.Defs[id]; o != nil {
+							m[o] = never
+						}
+					}
+				}
+			}
+		case *ast.ValueSpec:
+			if len(s.Names) == len(s.Values) {
+				for i, id := range s.Names {
+					if isFreshExpr(s.Values[i]) {
+						if o := w.pa.info.Defs[id]; o != nil {
+							m[o] = never
+						}
+					}
+				}
+			}
+		}
+		return true
+	})
+	if len(m) == 0 {
+		return m
+	}
+	// uses that are not the root of a selection / index / dereference are uses of the object on its own
+	rooted := map[token.Pos]bool{}
+	ast.Inspect(w.decl, func(n ast.Node) bool {
+		switch x := n.(type) {
+		case *ast.SelectorExpr:
+			if id, ok := x.X.(*ast.Ident); ok {
+				rooted[id.Pos()] = true
+			}
+		case *ast.IndexExpr:
+			if id, ok := x.X.(*ast.Ident); ok {
+				rooted[id.Pos()] = true
+			}
+		case *ast.StarExpr:
+			if id, ok := x.X.(*ast.Ident); ok {
+				rooted[id.Pos()] = true
+			}
+		case *ast.CallExpr:
+			// putting the object into a context value does not hand it to anybody yet
+			name := calleeName(x)
+			if strings.HasPrefix(name, "NewContext") || name == "WithValue" {
+				for _, a := range x.Args {
+					if id, ok := a.(*ast.Ident); ok {
+						rooted[id.Pos()] = true
+					}
+				}
+			}
+		}
+		return true
+	})
+	ast.Inspect(w.decl, func(n ast.Node) bool {
+		if id, ok := n.(*ast.Ident); ok && !rooted[id.Pos()] {
+			if o := w.pa.info.Uses[id]; o != nil {
+				if esc, ok := m[o]; ok && id.Pos() < esc {
+					m[o] = id.Pos()
+				}
+			}
+		}
+		return true
+	})
+	return m
 }
 
 func (w *walker) site(loc, kind string, pos token.Pos, c *ctx, init bool) {
@@ -1008,6 +1311,70 @@ func (w *walker) pointeeOf(e ast.Expr, c *ctx) string {
 	return ""
 }
 
+// contentsOf: e is a view of the elements of a slice/map field (the field itself, a slice of it, a local
+// that copied its header, or append(<such a view>, ...) whose result may share the backing array)
+func (w *walker) contentsOf(e ast.Expr, c *ctx) string {
+	switch x := e.(type) {
+	case *ast.ParenExpr:
+		return w.contentsOf(x.X, c)
+	case *ast.SelectorExpr:
+		if fi := w.pa.fieldOf(x); fi != nil && fi.container {
+			return fi.key + "[]"
+		}
+	case *ast.SliceExpr:
+		return w.contentsOf(x.X, c)
+	case *ast.Ident:
+		if o := w.obj(x); o != nil {
+			return c.alias[o]
+		}
+	case *ast.CallExpr:
+		if id, ok := x.Fun.(*ast.Ident); ok && id.Name == "append" && len(x.Args) > 0 {
+			return w.contentsOf(x.Args[0], c)
+		}
+	}
+	return ""
+}
+
+// elems records an access to the elements behind e, if e is a view of a slice/map field
+func (w *walker) elems(e ast.Expr, c *ctx, write bool) {
+	if loc := w.contentsOf(e, c); loc != "" {
+		k := "R"
+		if write {
+			k = "W"
+		}
+		w.site(loc, k, e.Pos(), c, w.isInit(e, c))
+	}
+}
+
+// setAlias: after `lhs = rhs` the local lhs is (or stops being) a view of a field's elements
+func (w *walker) setAlias(lhs, rhs ast.Expr, c *ctx) *ctx {
+	id, ok := lhs.(*ast.Ident)
+	if !ok || id.Name == "_" {
+		return c
+	}
+	o := w.obj(id)
+	if o == nil {
+		return c
+	}
+	if v, ok := o.(*types.Var); !ok || v.IsField() {
+		return c
+	}
+	loc := ""
+	if rhs != nil {
+		loc = w.contentsOf(rhs, c)
+	}
+	if loc == c.alias[o] {
+		return c
+	}
+	c = c.clone()
+	if loc == "" {
+		delete(c.alias, o)
+	} else {
+		c.alias[o] = loc
+	}
+	return c
+}
+
 func (w *walker) expr(e ast.Expr, c *ctx, write bool) {
 	switch x := e.(type) {
 	case nil:
@@ -1044,6 +1411,7 @@ func (w *walker) expr(e ast.Expr, c *ctx, write bool) {
 	case *ast.IndexExpr:
 		w.expr(x.X, c, write) // m[k] = v writes m
 		w.expr(x.Index, c, false)
+		w.elems(x.X, c, write)
 	case *ast.SliceExpr:
 		w.expr(x.X, c, false)
 		w.expr(x.Low, c, false)
@@ -1114,20 +1482,23 @@ func (w *walker) funcLit(fl *ast.FuncLit, c *ctx) {
 
 // callDetached: `go f(args)` / `defer f(args)`: the operands are evaluated here, the body runs
 // later or elsewhere, with none of the locks held now.
-func (w *walker) callDetached(call *ast.CallExpr, c *ctx) {
+func (w *walker) callDetached(call *ast.CallExpr, c *ctx, isGo bool) {
 	for _, a := range call.Args {
 		if _, ok := a.(*ast.FuncLit); !ok {
 			w.expr(a, c, false)
 		}
 	}
 	if fl, ok := call.Fun.(*ast.FuncLit); ok {
-		w.funcLit(fl, c.detached())
+		d := c.detached()
+		d.forked = d.forked || isGo
+		w.funcLit(fl, d)
 		return
 	}
 	if se, ok := call.Fun.(*ast.SelectorExpr); ok {
 		w.expr(se.X, c, false)
 	}
 	d := c.detached()
+	d.forked = d.forked || isGo
 	if id, ok := call.Fun.(*ast.Ident); ok && id.Name == "close" && len(call.Args) == 1 {
 		if fi := w.pa.fieldOf(call.Args[0]); fi != nil {
 			w.closer(fi.key, call.Pos(), d)
@@ -1148,8 +1519,35 @@ func (w *walker) call(call *ast.CallExpr, c *ctx, _ bool) {
 			if len(call.Args) == 2 {
 				w.expr(call.Args[0], c, true)
 				w.expr(call.Args[1], c, false)
+				w.elems(call.Args[0], c, true)
 				return
 			}
+		case "append":
+			if _, isBuiltin := w.obj(id).(*types.Builtin); isBuiltin || w.obj(id) == nil {
+				for _, a := range call.Args {
+					w.expr(a, c, false)
+				}
+				if len(call.Args) > 0 {
+					w.elems(call.Args[0], c, true) // may write in place, beyond len
+					for _, a := range call.Args[1:] {
+						w.elems(a, c, false)
+					}
+				}
+				return
+			}
+		case "copy":
+			if len(call.Args) == 2 {
+				w.expr(call.Args[0], c, false)
+				w.expr(call.Args[1], c, false)
+				w.elems(call.Args[0], c, true)
+				w.elems(call.Args[1], c, false)
+				return
+			}
+		case "len", "cap":
+			for _, a := range call.Args {
+				w.expr(a, c, false)
+			}
+			return
 		case "close":
 			if len(call.Args) == 1 {
 				if fi := w.pa.fieldOf(call.Args[0]); fi != nil {
@@ -1227,6 +1625,11 @@ func (w *walker) call(call *ast.CallExpr, c *ctx, _ bool) {
 		if p := w.pointeeOf(a, c); p != "" && fn == nil {
 			w.site(p, "W", a.Pos(), c, false) // handed to code outside the package
 		}
+		if fn == nil {
+			// elements handed to code outside the package: read there (sorted in place by sort.* / slices.Sort*)
+			name := calleeName(call)
+			w.elems(a, c, strings.HasPrefix(name, "Sort") || name == "Slice" || name == "SliceStable" || name == "Stable" || name == "Reverse")
+		}
 	}
 	if fn == nil {
 		return
@@ -1257,13 +1660,68 @@ func (w *walker) inline(fn *types.Func, call *ast.CallExpr, c, argCtx *ctx) {
 						cc.bind[o] = pt
 					}
 				}
+				if loc := w.contentsOf(call.Args[i], argCtx); loc != "" {
+					if o := w.pa.info.Defs[nm]; o != nil {
+						cc.alias[o] = loc
+					}
+				}
+				if w.freshArg(call.Args[i], argCtx) {
+					if o := w.pa.info.Defs[nm]; o != nil {
+						cc.fresh[o] = true
+					}
+				}
 			}
 			i++
+		}
+	}
+	if se, ok := call.Fun.(*ast.SelectorExpr); ok && fd.Recv != nil && len(fd.Recv.List) == 1 && len(fd.Recv.List[0].Names) == 1 {
+		if w.freshArg(se.X, argCtx) {
+			if o := w.pa.info.Defs[fd.Recv.List[0].Names[0]]; o != nil {
+				cc.fresh[o] = true
+			}
 		}
 	}
 	w.stack = append(w.stack, fn)
 	w.walkFunc(fd, cc)
 	w.stack = w.stack[:len(w.stack)-1]
+}
+
+// freshArg: the argument is (the address of) an object under construction in / private to the caller
+func (w *walker) freshArg(a ast.Expr, c *ctx) bool {
+	addr := false
+	if u, ok := a.(*ast.UnaryExpr); ok && u.Op == token.AND {
+		a, addr = u.X, true
+	}
+	if p, ok := a.(*ast.ParenExpr); ok {
+		a = p.X
+	}
+	id, ok := a.(*ast.Ident)
+	if !ok {
+		return false
+	}
+	o := w.obj(id)
+	if v, ok := o.(*types.Var); !ok || v.IsField() {
+		return false
+	}
+	sel := &ast.SelectorExpr{X: id, Sel: ast.NewIdent("_")}
+	if addr {
+		return w.isInit(sel, c) // the address of a private struct / of a constructor's local
+	}
+	if c.fresh[o] {
+		return true
+	}
+	if _, byValue := o.Type().Underlying().(*types.Struct); byValue {
+		return false // a copy is passed
+	}
+	if w.decl != nil && within(o.Pos(), w.decl) {
+		if esc, ok := w.freshLocals()[o]; ok && id.Pos() <= esc {
+			return true
+		}
+	}
+	if c.forked {
+		return false
+	}
+	return w.isInit(sel, c)
 }
 
 func calleeName(call *ast.CallExpr) string {
@@ -1276,110 +1734,401 @@ func calleeName(call *ast.CallExpr) string {
 	return ""
 }
 
-// ---- pkg/group: locals shared with the goroutines a function starts ----
+// ---- locals shared with the goroutines a function starts (every package) ----
+//
+// For every function that starts goroutines with `go func(){...}()`, each local variable that such a
+// literal captures is a location "<pkg>.<Func>.<var>" (and "<...>.chan" for the channel object it holds:
+// close is a write of it, a send a read - the race detector's view).  A site is placed in its thread
+// (the innermost go literal around it, or the function's own thread) and gets the happens-before facts
+// the model knows, each as a virtual channel:
+//   go:G   closed by the go statement that starts literal G; sites of the parent thread before that go
+//          statement are BPO go:G (unless a loop around both would let a later iteration's site follow an
+//          earlier iteration's fork of a variable declared outside the loop), sites inside G are after go:G;
+//   end:G / ret:F   closed when the goroutine / the function's own thread ends: all sites of one thread are
+//          BPO of it (same thread); a literal started in a loop, for a variable declared outside that loop
+//          (several instances of the literal share it), is represented by two instances G#1 and G#2 with
+//          their own go:/end:/wg: channels, so that a row of one instance meets the same row of the other;
+//   wg:W@G closed by W.Done() in G (W a sync.WaitGroup local with W.Add(...) before the go statement):
+//          sites of G before its Done (all of them when it is deferred) are BPO wg:W@G, sites that follow a
+//          top-level W.Wait() in another thread are after wg:W@G.
 
-func (pa *pkgAn) groupLocals() {
+type goLit struct {
+	fl     *ast.FuncLit
+	goPos  token.Pos
+	parent *goLit
+	name   string
+}
+
+func (pa *pkgAn) sharedLocals() {
 	var fds []*ast.FuncDecl
 	for _, fd := range pa.funcs {
 		fds = append(fds, fd)
 	}
 	sort.Slice(fds, func(i, j int) bool { return fds[i].Pos() < fds[j].Pos() })
 	for _, fd := range fds {
-		var lits []*ast.FuncLit
-		ast.Inspect(fd.Body, func(n ast.Node) bool {
-			if g, ok := n.(*ast.GoStmt); ok {
-				if fl, ok := g.Call.Fun.(*ast.FuncLit); ok {
-					lits = append(lits, fl)
-				}
+		pa.sharedLocalsOf(fd)
+	}
+}
+
+func within(p token.Pos, n ast.Node) bool { return p >= n.Pos() && p <= n.End() }
+
+func (pa *pkgAn) sharedLocalsOf(fd *ast.FuncDecl) {
+	file, _ := pa.rel(fd.Pos())
+	fname := file + ":" + fnName(fd)
+	var lits []*goLit
+	var loops []ast.Node
+	ast.Inspect(fd.Body, func(n ast.Node) bool {
+		switch x := n.(type) {
+		case *ast.GoStmt:
+			if fl, ok := x.Call.Fun.(*ast.FuncLit); ok {
+				_, line := pa.rel(x.Pos())
+				lits = append(lits, &goLit{fl: fl, goPos: x.Pos(), name: fmt.Sprintf("%s.%s@%d", pa.short, fnName(fd), line)})
 			}
+		case *ast.ForStmt, *ast.RangeStmt:
+			loops = append(loops, n)
+		}
+		return true
+	})
+	if len(lits) == 0 {
+		return
+	}
+	threadOf := func(p token.Pos) *goLit {
+		var best *goLit
+		for _, g := range lits {
+			if within(p, g.fl) && (best == nil || g.fl.Pos() > best.fl.Pos()) {
+				best = g
+			}
+		}
+		return best
+	}
+	for _, g := range lits {
+		// the thread that executes the go statement
+		var best *goLit
+		for _, h := range lits {
+			if h != g && within(g.goPos, h.fl) && (best == nil || h.fl.Pos() > best.fl.Pos()) {
+				best = h
+			}
+		}
+		g.parent = best
+	}
+	// a loop around both p and q that does not contain the declaration of v
+	loopAround := func(v types.Object, p, q token.Pos) bool {
+		for _, l := range loops {
+			if within(p, l) && within(q, l) && !within(v.Pos(), l) {
+				return true
+			}
+		}
+		return false
+	}
+	// several instances of g (or of a thread it descends from) may share v
+	multi := func(g *goLit, v types.Object) bool {
+		for h := g; h != nil; h = h.parent {
+			if within(v.Pos(), h.fl) {
+				return false
+			}
+			if loopAround(v, h.goPos, h.goPos) {
+				return true
+			}
+		}
+		return false
+	}
+	// captured variables: used in a goroutine that did not declare them
+	captured := map[types.Object]bool{}
+	uses := map[types.Object][]*ast.Ident{}
+	ast.Inspect(fd, func(n ast.Node) bool {
+		id, ok := n.(*ast.Ident)
+		if !ok {
 			return true
-		})
-		if len(lits) == 0 {
-			continue
 		}
-		inLit := func(p token.Pos) *ast.FuncLit {
-			for _, fl := range lits {
-				if p >= fl.Pos() && p <= fl.End() {
-					return fl
-				}
-			}
-			return nil
-		}
-		// captured variables and the first goroutine that captures each
-		firstFork := map[types.Object]token.Pos{}
-		ast.Inspect(fd, func(n ast.Node) bool {
-			id, ok := n.(*ast.Ident)
-			if !ok {
-				return true
-			}
-			v, ok := pa.info.Uses[id].(*types.Var)
-			if !ok || v.IsField() || v.Pkg() == nil || v.Parent() == v.Pkg().Scope() {
-				return true
-			}
-			fl := inLit(id.Pos())
-			if fl == nil || (v.Pos() >= fl.Pos() && v.Pos() <= fl.End()) {
-				return true
-			}
-			if !(v.Pos() >= fd.Pos() && v.Pos() <= fd.End()) {
-				return true
-			}
-			if p, ok := firstFork[v]; !ok || fl.Pos() < p {
-				firstFork[v] = fl.Pos()
-			}
+		v, ok := pa.info.Uses[id].(*types.Var)
+		if !ok || v.IsField() || v.Pkg() == nil || v.Parent() == v.Pkg().Scope() {
 			return true
-		})
-		if len(firstFork) == 0 {
-			continue
 		}
-		w := &walker{pa: pa, decl: fd}
-		writes := map[token.Pos]bool{}
-		ast.Inspect(fd, func(n ast.Node) bool {
-			switch s := n.(type) {
-			case *ast.AssignStmt:
-				if s.Tok != token.DEFINE {
-					for _, l := range s.Lhs {
-						if id := w.rootIdent(l); id != nil {
+		if !within(v.Pos(), fd) {
+			return true
+		}
+		uses[v] = append(uses[v], id)
+		if g := threadOf(id.Pos()); g != nil && g != threadOf(v.Pos()) {
+			captured[v] = true
+		}
+		return true
+	})
+	if len(captured) == 0 {
+		return
+	}
+	w := &walker{pa: pa, decl: fd}
+	writes := map[token.Pos]bool{}
+	ast.Inspect(fd, func(n ast.Node) bool {
+		switch s := n.(type) {
+		case *ast.AssignStmt:
+			if s.Tok != token.DEFINE {
+				for _, l := range s.Lhs {
+					if id := w.rootIdent(l); id != nil {
+						if _, direct := l.(*ast.Ident); direct {
 							writes[id.Pos()] = true
+						} else if _, sel := l.(*ast.SelectorExpr); sel {
+							// v.f = x on a struct held by value writes v; through a pointer it does not
+							if o := pa.info.Uses[id]; o != nil {
+								if _, isPtr := o.Type().Underlying().(*types.Pointer); !isPtr {
+									writes[id.Pos()] = true
+								}
+							}
 						}
 					}
 				}
-			case *ast.IncDecStmt:
-				if id := w.rootIdent(s.X); id != nil {
+			}
+		case *ast.IncDecStmt:
+			if id, ok := s.X.(*ast.Ident); ok {
+				writes[id.Pos()] = true
+			}
+		case *ast.UnaryExpr:
+			if s.Op == token.AND {
+				if id, ok := s.X.(*ast.Ident); ok {
 					writes[id.Pos()] = true
 				}
-			case *ast.UnaryExpr:
-				if s.Op == token.AND {
-					if id, ok := s.X.(*ast.Ident); ok {
-						writes[id.Pos()] = true
+			}
+		}
+		return true
+	})
+	// WaitGroups: Done per literal, Add before the go statement, top-level Wait statements per thread
+	isWG := func(v types.Object) bool {
+		ok := false
+		ast.Inspect(fd, func(n ast.Node) bool {
+			if vs, is := n.(*ast.ValueSpec); is && vs.Type != nil && typeString(vs.Type) == "sync.WaitGroup" {
+				for _, nm := range vs.Names {
+					if pa.info.Defs[nm] == v {
+						ok = true
 					}
 				}
 			}
 			return true
 		})
-		emit := func(v types.Object, pos token.Pos, kind string, init bool) {
-			w.site("group."+fnName(fd)+"."+v.Name(), kind, pos, newCtx(), init)
+		return ok
+	}
+	wgCall := func(s ast.Stmt, method string) (types.Object, token.Pos) {
+		var call *ast.CallExpr
+		switch x := s.(type) {
+		case *ast.ExprStmt:
+			call, _ = x.X.(*ast.CallExpr)
+		case *ast.DeferStmt:
+			call = x.Call
 		}
-		for v, fork := range firstFork {
-			emit(v, v.Pos(), "W", v.Pos() < fork) // the declaration
+		if call == nil {
+			return nil, 0
 		}
-		ast.Inspect(fd, func(n ast.Node) bool {
-			id, ok := n.(*ast.Ident)
-			if !ok {
+		se, ok := call.Fun.(*ast.SelectorExpr)
+		if !ok || se.Sel.Name != method {
+			return nil, 0
+		}
+		id, ok := se.X.(*ast.Ident)
+		if !ok {
+			return nil, 0
+		}
+		v := pa.info.Uses[id]
+		if v == nil || !isWG(v) {
+			return nil, 0
+		}
+		return v, call.Pos()
+	}
+	type doneInfo struct {
+		pos      token.Pos // sites before pos precede the Done
+		deferred bool      // all sites of the literal do
+	}
+	done := map[*goLit]map[types.Object]doneInfo{}
+	bodyOf := func(g *goLit) []ast.Stmt {
+		if g == nil {
+			return fd.Body.List
+		}
+		return g.fl.Body.List
+	}
+	for _, g := range lits {
+		for _, s := range bodyOf(g) {
+			if v, p := wgCall(s, "Done"); v != nil {
+				_, deferred := s.(*ast.DeferStmt)
+				// the WaitGroup must have been Added to, in the thread that starts g, before the go statement
+				added := false
+				ast.Inspect(fd, func(n ast.Node) bool {
+					if es, ok := n.(*ast.ExprStmt); ok {
+						if v2, p2 := wgCall(es, "Add"); v2 == v && p2 < g.goPos && threadOf(p2) == g.parent {
+							added = true
+						}
+					}
+					return true
+				})
+				if !added {
+					continue
+				}
+				if done[g] == nil {
+					done[g] = map[types.Object]doneInfo{}
+				}
+				done[g][v] = doneInfo{pos: p, deferred: deferred}
+			}
+		}
+	}
+	type waitInfo struct {
+		v   types.Object
+		end token.Pos
+	}
+	waits := map[*goLit][]waitInfo{} // nil key: the function's own thread
+	for _, th := range append([]*goLit{nil}, lits...) {
+		for _, s := range bodyOf(th) {
+			if v, _ := wgCall(s, "Wait"); v != nil {
+				if _, isDefer := s.(*ast.DeferStmt); !isDefer {
+					waits[th] = append(waits[th], waitInfo{v, s.End()})
+				}
+			}
+		}
+	}
+	inLoop := func(g *goLit) bool {
+		for _, l := range loops {
+			if within(g.goPos, l) {
 				return true
 			}
-			v := pa.info.Uses[id]
-			fork, ok := firstFork[v]
-			if !ok {
+		}
+		return false
+	}
+	for _, g := range lits {
+		_, line := pa.rel(g.goPos)
+		_, eline := pa.rel(g.fl.End())
+		insts := []string{g.name}
+		if inLoop(g) {
+			insts = append(insts, g.name+"#1", g.name+"#2")
+		}
+		for _, n := range insts {
+			pa.addCloser(closerRow{Chan: "go:" + n, Fn: fname, Pos: fmt.Sprintf("%s:%d", file, line)})
+			pa.addCloser(closerRow{Chan: "end:" + n, Fn: fname, Pos: fmt.Sprintf("%s:%d", file, eline)})
+			for wv, di := range done[g] {
+				_, dline := pa.rel(di.pos)
+				pa.addCloser(closerRow{Chan: "wg:" + wv.Name() + "@" + n, Fn: fname, Pos: fmt.Sprintf("%s:%d", file, dline)})
+			}
+		}
+	}
+	_, rline := pa.rel(fd.End())
+	retName := "ret:" + pa.short + "." + fnName(fd)
+	pa.addCloser(closerRow{Chan: retName, Fn: fname, Pos: fmt.Sprintf("%s:%d", file, rline)})
+
+	usesVar := func(g *goLit, v types.Object) bool {
+		for _, id := range uses[v] {
+			if within(id.Pos(), g.fl) {
 				return true
 			}
+		}
+		return false
+	}
+	// names: a literal of which several instances share v is represented by TWO instances (#1, #2): a row
+	// of one against the same row of the other is then a pair of different threads
+	names := func(g *goLit, v types.Object) []string {
+		if multi(g, v) {
+			return []string{g.name + "#1", g.name + "#2"}
+		}
+		return []string{g.name}
+	}
+	emit := func(v types.Object, loc string, pos token.Pos, kind string) {
+		th := threadOf(pos)
+		_, line := pa.rel(pos)
+		insts := []string{""}
+		if th != nil {
+			insts = names(th, v)
+		}
+		for _, inst := range insts {
+			row := siteRow{Loc: loc, Kind: kind, Fn: fname, Pos: fmt.Sprintf("%s:%d", file, line)}
+			// started by: every go statement on the way from the thread that declares v
+			for h := th; h != nil && !within(v.Pos(), h.fl); h = h.parent {
+				if h == th {
+					row.After = append(row.After, "go:"+inst)
+				} else {
+					row.After = append(row.After, "go:"+names(h, v)[0])
+				}
+			}
+			// same thread
+			if th == nil {
+				row.Before = append(row.Before, beforeTag{Kind: "PO", Chan: retName})
+			} else {
+				row.Before = append(row.Before, beforeTag{Kind: "PO", Chan: "end:" + inst})
+			}
+			// before the go statements of this thread that come later
+			for _, g := range lits {
+				if g.parent == th && g.goPos > pos && usesVar(g, v) && !loopAround(v, pos, g.goPos) {
+					for _, n := range names(g, v) {
+						row.Before = append(row.Before, beforeTag{Kind: "PO", Chan: "go:" + n})
+					}
+				}
+			}
+			// before this goroutine's Done
+			if th != nil {
+				for wv, di := range done[th] {
+					if di.deferred || pos < di.pos {
+						row.Before = append(row.Before, beforeTag{Kind: "PO", Chan: "wg:" + wv.Name() + "@" + inst})
+					}
+				}
+			}
+			// after a Wait of this thread: every goroutine that calls Done on it has done so
+			for _, wi := range waits[th] {
+				if pos > wi.end {
+					for _, g := range lits {
+						if _, ok := done[g][wi.v]; ok && g != th {
+							for _, n := range names(g, v) {
+								row.After = append(row.After, "wg:"+wi.v.Name()+"@"+n)
+							}
+						}
+					}
+				}
+			}
+			sort.Strings(row.After)
+			sort.Slice(row.Before, func(i, j int) bool { return fmt.Sprint(row.Before[i]) < fmt.Sprint(row.Before[j]) })
+			k := fmt.Sprint(row)
+			if pa.seen[k] {
+				continue
+			}
+			pa.seen[k] = true
+			pa.out.Sites = append(pa.out.Sites, row)
+		}
+	}
+	var vars []types.Object
+	for v := range captured {
+		vars = append(vars, v)
+	}
+	sort.Slice(vars, func(i, j int) bool { return vars[i].Pos() < vars[j].Pos() })
+	locOf := func(v types.Object) string { return pa.short + "." + fnName(fd) + "." + v.Name() }
+	for _, v := range vars {
+		emit(v, locOf(v), v.Pos(), "W") // the declaration
+		for _, id := range uses[v] {
 			kind := "R"
 			if writes[id.Pos()] {
 				kind = "W"
 			}
-			emit(v, id.Pos(), kind, inLit(id.Pos()) == nil && id.Pos() < fork)
-			return true
-		})
+			emit(v, locOf(v), id.Pos(), kind)
+		}
 	}
+	// the channel objects held by captured variables: close writes, send reads
+	ast.Inspect(fd, func(n ast.Node) bool {
+		switch x := n.(type) {
+		case *ast.SendStmt:
+			if id, ok := x.Chan.(*ast.Ident); ok {
+				if v := pa.info.Uses[id]; v != nil && captured[v] {
+					emit(v, locOf(v)+".chan", id.Pos(), "R")
+				}
+			}
+		case *ast.CallExpr:
+			if f, ok := x.Fun.(*ast.Ident); ok && f.Name == "close" && len(x.Args) == 1 {
+				if id, ok := x.Args[0].(*ast.Ident); ok {
+					if v := pa.info.Uses[id]; v != nil && captured[v] {
+						emit(v, locOf(v)+".chan", id.Pos(), "W")
+					}
+				}
+			}
+		}
+		return true
+	})
+}
+
+func (pa *pkgAn) addCloser(row closerRow) {
+	k := fmt.Sprint(row)
+	if pa.seenC[k] {
+		return
+	}
+	pa.seenC[k] = true
+	pa.out.Closers = append(pa.out.Closers, row)
 }
 
 // ---- Coq output ----
